@@ -381,6 +381,7 @@ pub struct StepW {
 	pub kill: u32,
 	pub park_key: u32,
 	pub probe_key_many: u32,
+	pub owned_temp: u32,
 	pub p_try: u8,
 	pub p_read: u8,
 	pub p_owned_key: u8,
@@ -416,6 +417,7 @@ impl Default for StepW {
 			kill: 0,
 			park_key: 0,
 			probe_key_many: 0,
+			owned_temp: 0,
 			p_try: 110,
 			p_read: 100,
 			p_owned_key: 100,
@@ -543,6 +545,7 @@ pub fn gen_seq(src: &mut Src<'_>, cfg: &SeqCfg) -> SeqCase {
 			if world.leaves.is_empty() { 0 } else { sw.kill },
 			if s.key { sw.park_key } else { 0 },
 			if s.key || s.guard || s.lost { sw.probe_key_many } else { 0 },
+			if s.key { sw.owned_temp } else { 0 },
 		];
 		let Some(k) = src.weighted(&weights) else { continue };
 		let step = match k {
@@ -662,6 +665,14 @@ pub fn gen_seq(src: &mut Src<'_>, cfg: &SeqCfg) -> SeqCase {
 					_ => 65_534 + src.pick(5) as u32,
 				};
 				Step::ProbeKeyMany { n }
+			}
+			17 => {
+				let leak = src.chance(90);
+				if leak {
+					st[t].key = false;
+					st[t].lost = true;
+				}
+				Step::OwnedTemp { shape: src.pick(crate::interp::TEMP_SHAPES as usize) as u8, leak, kill: src.chance(70), op: src.pick(8) as u8 }
 			}
 			_ => {
 				let kind = match src.pick(3) {
